@@ -233,7 +233,19 @@ class Sym:
 
 
 class TraceError(Exception):
-    pass
+    """a trace was produced but does not have the expected shape (a broken obligation)"""
+
+
+class TraceUnavailable(Exception):
+    """the real function could not be run on symbolic arrays at all (recorded, not alarmed)"""
+
+
+def real(f, *a, **kw):
+    """run a piece of the real code on symbolic inputs"""
+    try:
+        return f(*a, **kw)
+    except Exception as e:  # noqa: BLE001
+        raise TraceUnavailable("%s: %s" % (type(e).__name__, str(e)[:200]))
 
 
 def var(name):
@@ -314,7 +326,7 @@ def trace_sps(N, B):
     """BinwisePatchwiseArray.sample_patch_sum on a counts array == loo"""
     names = []
     binning = Binning([0.25 * i for i in range(B + 1)])
-    res = _new_counts(binning, sym_array((B, N, N), "c", names), False).sample_patch_sum()
+    res = real(_new_counts(binning, sym_array((B, N, N), "c", names), False).sample_patch_sum)
     tf = TraceFile("sps_N%d_B%d" % (N, B), names)
     for b in range(B):
         tf.lemma("data_b%d" % b, coq_of(res.data[b]), "total %s" % cmat("c", b, N))
@@ -328,8 +340,8 @@ def trace_weights(N, B, auto):
     names = []
     binning = Binning([0.25 * i for i in range(B + 1)])
     sw = _new_weights(binning, sym_array((B, N), "u", names), sym_array((B, N), "v", names), auto)
-    arr = sw.get_array()
-    res = sw.sample_patch_sum()
+    arr = real(sw.get_array)
+    res = real(sw.sample_patch_sum)
     tf = TraceFile("weights_%s_N%d_B%d" % ("auto" if auto else "cross", N, B), names)
     a = fq.b(auto)
     for b in range(B):
@@ -351,7 +363,7 @@ def trace_nc(N, B, auto):
     binning = Binning([0.25 * i for i in range(B + 1)])
     pc = _new_counts(binning, sym_array((B, N, N), "c", names), auto)
     sw = _new_weights(binning, sym_array((B, N), "u", names), sym_array((B, N), "v", names), auto)
-    res = NormalisedCounts(pc, sw).sample_patch_sum()
+    res = real(lambda: NormalisedCounts(pc, sw).sample_patch_sum())
     tf = TraceFile("nc_%s_N%d_B%d" % ("auto" if auto else "cross", N, B), names)
     a = fq.b(auto)
     for b in range(B):
@@ -378,7 +390,7 @@ def trace_estimators(B):
              ("dp_rd", yaw_corrfunc.davis_peebles, dict(dd=dd, rd=rd), "dd%d - rd%d", "rd%d"),
              ("dp_both", yaw_corrfunc.davis_peebles, dict(dd=dd, dr=dr, rd=rd), "dd%d - rd%d", "rd%d")]
     for label, f, kw, num_s, den_s in cases:
-        out = f(**kw)
+        out = real(f, **kw)
         for b in range(B):
             num, den = split_quot(out[b])
             tf.lemma("%s_num_b%d" % (label, b), coq_of(num), num_s % ((b,) * num_s.count("%d")))
@@ -401,7 +413,7 @@ def trace_nz(N, B, use_ref, use_unk):
 
     def cd(p):
         return _new_corrdata(CorrData, binning, sym_array((B,), p + "d", names), sym_array((N, B), p + "s", names))
-    out = RedshiftData.from_corrdata(cd("sp"), cd("ss") if use_ref else None, cd("pp") if use_unk else None)
+    out = real(RedshiftData.from_corrdata, cd("sp"), cd("ss") if use_ref else None, cd("pp") if use_unk else None)
     tf = TraceFile("nz_N%d_B%d_%s%s" % (N, B, "r" if use_ref else "", "u" if use_unk else ""), names)
 
     def one(label, t, sp, ss, pp, b):
@@ -429,7 +441,7 @@ def trace_normalised(N, B, hist):
     binning = Binning(edges)
     dz = [edges[i + 1] - edges[i] for i in range(B)]
     cls = HistData if hist else RedshiftData
-    out = _new_corrdata(cls, binning, sym_array((B,), "x", names), sym_array((N, B), "s", names)).normalised()
+    out = real(_new_corrdata(cls, binning, sym_array((B,), "x", names), sym_array((N, B), "s", names)).normalised)
     tf = TraceFile("%s_normalised_N%d_B%d" % ("hist" if hist else "nz", N, B), names)
     nums, dens = zip(*(split_quot(out.data[b]) for b in range(B)))
     integral = " + ".join("%s * %s" % (fq.q(dz[b]), coq_of(nums[b])) for b in range(B))
@@ -463,8 +475,11 @@ def run_traces(ctx, jobs):
             with open(path, "w") as f:
                 f.write(tf.text())
             files.append((tf.name, path, len(tf.lemmas)))
-        except Exception as e:  # noqa: BLE001
-            unavailable.append("%s: %s: %s" % (label, type(e).__name__, str(e)[:200]))
+        except TraceUnavailable as e:
+            unavailable.append("%s: %s" % (label, e))
+        except Exception as e:  # noqa: BLE001  (the trace exists but is not of the documented shape)
+            ctx.obligation("trace:%s" % label, False, "trace of unexpected shape: %s: %s" % (type(e).__name__, e))
+            ctx.log("trace of %s has an unexpected shape: %s: %s" % (label, type(e).__name__, e))
     with ThreadPoolExecutor(max_workers=16) as ex:
         results = list(ex.map(lambda t: coqrun.coqc_file(t[1], 600), files))
     nlem = 0
